@@ -1,13 +1,13 @@
 """C13 — trace filters commute with decoding and leave no residue in the parser."""
 from .. import vlib
 from ..vlib import cN, clist
-from ..translate import tr_decoders, tr_handlers
+from ..translate import tr_decoders, tr_handlers, tr_filters, tr_pairing
 from ..harness.streams import StreamGen
 from . import pairing_common as pc
 
-TRANSLATORS = [tr_handlers.translate, tr_decoders.translate]
+TRANSLATORS = [tr_handlers.translate, tr_decoders.translate, tr_filters.translate, tr_pairing.translate]
 MODEL_TARGETS = ['theories/FiltersTracesCases.vo', 'theories/FiltersPipelineCases.vo']
-PROOF_TARGETS = ['props/C13.vo']
+PROOF_TARGETS = ['props/C13.vo', 'theories/FiltersRefine.vo', 'theories/PairingRefine.vo']
 PROP_FILE = 'props/C13.v'
 ASSUMPTIONS = [
     'traces() is modelled as: event selection (kevents with helper classes) -> pairing machine (C04 model) -> post-filters; '
@@ -47,7 +47,7 @@ def gen_cfg(rng, evs, threads):
     else:
         classes = [rng.choice([4, 0x25, 1])]
         subs = [0x0301]
-    tid = rng.choice([None, None, threads[0][0], 11, 99999] + sorted({e[0] for e in evs}))
+    tid = rng.choice([None, None, threads[0][0], 11, 99999, 0] + sorted({e[0] for e in evs}))
     return {'filter_class': classes, 'filter_subclass': subs, 'filter_tid': tid}
 
 
@@ -71,6 +71,22 @@ def run(ctx, model_ok):
             k = rng.randrange(len(evs) + 1)
             evs = evs[:k] + extra + evs[k:]
             cfg = {'filter_class': [], 'filter_subclass': [], 'filter_tid': b_tid}
+        if i % 2 == 0:
+            # a thread is reported terminated BEFORE its name is announced (and a kernel string is used before it is
+            # announced): the first and every later request on one object render the early record without the later name
+            c = sg.c
+            x = 0x7a1
+            from ..harness.streams import name_words
+            evs = evs + [[x, c['TRACE_DATA_THREAD_TERMINATE'], 0, [x, 0, 0, 0]], [x, c['TRACE_STRING_THREADNAME'], 0, name_words('late-name')],
+                         [x, c['TRACE_DATA_THREAD_TERMINATE'], 0, [x, 0, 0, 0]]]
+        if i % 5 == 4:
+            # directed: records emitted outside a thread context carry thread id 0; a request for thread 0 is a request like
+            # any other
+            c = sg.c
+            extra = [[0, c['BSC_getpid'], 1, [0, 0, 0, 0]], [0, c['BSC_getpid'], 2, [0, 1, 0, 0]]]
+            k = rng.randrange(len(evs) + 1)
+            evs = evs[:k] + extra + evs[k:]
+            cfg = {'filter_class': rng.choice([[], [4]]), 'filter_subclass': [], 'filter_tid': 0}
         if i % 5 == 3:
             # directed: a kernel string of three records with a record of another class of the same thread between them; the
             # request asks for the trace class only
